@@ -46,6 +46,7 @@ for st in "$@"; do
     w*) n=${st#w}; tail -c +$((off+1)) "$pat" | head -c "$n"; off=$((off+n));;
     s*) ms=${st#s}; sleep $(printf '%d.%03d' $((ms/1000)) $((ms%1000)));;
     x*) exit ${st#x};;
+    h) trap 'exit 130' INT TERM; while :; do sleep 0.05; done;;
   esac
 done
 exit 0
@@ -247,26 +248,28 @@ func query(sock, unit string) view {
 
 // observation is one crash/restart experiment on one unit.
 type observation struct {
-	Scenario   string    `json:"scenario"`
-	Kind       string    `json:"kind"` // local | remote-bound | remote-unbound
-	Plan       plan      `json:"plan"`
-	Crash      crashSpec `json:"crash"`
-	Reached    bool      `json:"crash_reached"`
-	Acked      bool      `json:"acked"`   // the unit ID had been returned to the submitter
-	Replied    bool      `json:"replied"` // the final reply of `work submit` had arrived
-	Unit       string    `json:"unit"`
-	Spawned    bool      `json:"runner_spawned"`       // a command runner process existed at some time
-	RunnerUp   bool      `json:"runner_alive"`         // ... and was alive when the daemon was started again
-	Before     *view     `json:"before,omitempty"`     // last status seen before the crash, if any
-	Finished   bool      `json:"finished_before"`      // ... and it was a finished one
-	AtRestart  view      `json:"at_restart"`           // first answers after the restart
-	Final      view      `json:"final"`                // after waiting for the unit to finish
-	Results    string    `json:"results"`              // "complete" | "short:<n>" | "wrong" | "no-end" | "error:…" | "" (not asked)
-	Cycle2     *view     `json:"cycle2,omitempty"`     // after one more kill/restart
-	StatusRaw  string    `json:"status_file_at_crash"` // "absent" | "empty" | "json"
-	StatusDown string    `json:"status_file_before_restart"`
-	LocalOut   int       `json:"stdout_bytes_at_restart"`
-	Notes      []string  `json:"notes,omitempty"`
+	Scenario   string        `json:"scenario"`
+	Kind       string        `json:"kind"` // local | remote-bound | remote-unbound
+	Plan       plan          `json:"plan"`
+	Crash      crashSpec     `json:"crash"`
+	Reached    bool          `json:"crash_reached"`
+	Acked      bool          `json:"acked"`   // the unit ID had been returned to the submitter
+	Replied    bool          `json:"replied"` // the final reply of `work submit` had arrived
+	Unit       string        `json:"unit"`
+	Spawned    bool          `json:"runner_spawned"`       // a command runner process existed at some time
+	RunnerUp   bool          `json:"runner_alive"`         // ... and was alive when the daemon was started again
+	Before     *view         `json:"before,omitempty"`     // last status seen before the crash, if any
+	Finished   bool          `json:"finished_before"`      // ... and it was a finished one
+	AtRestart  view          `json:"at_restart"`           // first answers after the restart
+	Final      view          `json:"final"`                // after waiting for the unit to finish
+	Results    string        `json:"results"`              // "complete" | "short:<n>" | "wrong" | "no-end" | "error:…" | "" (not asked)
+	Cycle2     *view         `json:"cycle2,omitempty"`     // after one more kill/restart
+	StatusRaw  string        `json:"status_file_at_crash"` // "absent" | "empty" | "json"
+	StatusDown string        `json:"status_file_before_restart"`
+	LocalOut   int           `json:"stdout_bytes_at_restart"`
+	Notes      []string      `json:"notes,omitempty"`
+	Results2   string        `json:"results_after_second_restart"`
+	Residents  []residentObs `json:"residents,omitempty"`
 }
 
 // ---------- run ----------
@@ -303,7 +306,9 @@ func runC04(c *Ctx) {
 	})
 	for _, o := range sh.obs {
 		judge(sh, o)
+		judgeResidents(sh, o)
 		addCase(sh, o)
+		residentCases(sh, o)
 	}
 	if os.Getenv("C04_DEBUG") != "" {
 		for _, o := range sh.obs {
